@@ -31,6 +31,9 @@ import sys
 import warnings
 
 
+MARK = [lambda label: None]      # set by main(): notes the step of a history that is about to run
+
+
 def fl(x):
     if isinstance(x, str):
         return float(x)
@@ -271,6 +274,267 @@ def build_entries():
     def _(a):
         return hgrid.slope(mkgrid(a["fd"], "int64"), mkgrid(a["alt"], "float64"), a.get("nprint", 100))
 
+    # ---- histories: several calls on ONE set of objects / buffers (in-place edits, views, sizes changing between
+    # calls, public attributes re-assigned, clone / pickle / dict round trips). Every step may raise (an exception is
+    # an allowed answer); `mark` notes the step so that a sanitizer report or a crash is attributed to it.
+    import copy
+    import pickle
+
+    def run_steps(steps):
+        out = []
+        for label, fn in steps:
+            MARK[0](label)
+            try:
+                fn()
+                out.append(label + ":ok")
+            except Exception as e:      # noqa
+                out.append(label + ":" + type(e).__name__)
+        return out
+
+    @entry("h.series")
+    def _(a):
+        x = arr(a["x"], np)
+        idx = arr(a["idx"], np)
+        k = a.get("k", max(len(x) // 2, 0))
+        st = []
+        for name, f in (("aggregate", lambda i, v: dutils.aggregate(i, v, a.get("operator", 0), a.get("maxnan", 0))),
+                        ("flathomogen", lambda i, v: dutils.flathomogen(i, v, a.get("maxnan", 0)))):
+            st += [(name + "/first", lambda f=f: f(idx, x)),
+                   (name + "/strided_views", lambda f=f: f(idx[::2], x[::2])),
+                   (name + "/shorter", lambda f=f: f(idx[:k], x[:k])),
+                   (name + "/empty_view", lambda f=f: f(idx[:0], x[:0])),
+                   (name + "/float32", lambda f=f: f(idx, x.astype(np.float32))),
+                   (name + "/reversed_view", lambda f=f: f(idx[::-1], x[::-1])),
+                   (name + "/again", lambda f=f: f(idx, x))]
+        st.append(("edit_inputs_in_place", lambda: x.__setitem__(slice(None, None, 3), np.nan)))
+        st += [("aggregate/after_edit", lambda: dutils.aggregate(idx, x, 1, 1)),
+               ("islinear/first", lambda: qualitycontrol.islinear(x)),
+               ("islinear/strided_view", lambda: qualitycontrol.islinear(x[::2])),
+               ("islinear/one", lambda: qualitycontrol.islinear(x[:1])),
+               ("islinear/empty_view", lambda: qualitycontrol.islinear(x[:0])),
+               ("islinear/float32", lambda: qualitycontrol.islinear(x.astype(np.float32))),
+               ("islinear/2d_column", lambda: qualitycontrol.islinear(x.reshape((-1, 1))[:, 0])),
+               ("islinear/again", lambda: qualitycontrol.islinear(x, npoints=1)),
+               ("eckhardt/first", lambda: signatures.eckhardt(x)),
+               ("eckhardt/strided_view", lambda: signatures.eckhardt(x[::2])),
+               ("eckhardt/empty_view", lambda: signatures.eckhardt(x[:0])),
+               ("eckhardt/again", lambda: signatures.eckhardt(x, timestep_type=0))]
+        return run_steps(st)
+
+    @entry("h.var2h")
+    def _(a):
+        secs = np.array(a["secs"], dtype="int64")
+        se = pd.Series(arr(a["values"], np), index=pd.DatetimeIndex(secs.astype("datetime64[s]").astype("datetime64[ns]")))
+        f = lambda s, **kw: dutils.var2h(s, **kw)       # noqa
+        return run_steps([
+            ("first", lambda: f(se)), ("half_hourly", lambda: f(se, nbsec_per_period=1800)),
+            ("every_other", lambda: f(se.iloc[::2])), ("one_stamp", lambda: f(se.iloc[:1])),
+            ("empty", lambda: f(se.iloc[:0])), ("two_stamps", lambda: f(se.iloc[:2], rainfall=True)),
+            ("edit_values", lambda: se.values.__setitem__(slice(None, None, 2), np.nan)),
+            ("after_edit", lambda: f(se)), ("reversed", lambda: f(se.iloc[::-1])),
+            ("again", lambda: f(se, rainfall=True))])
+
+    @entry("h.stat")
+    def _(a):
+        ens = arr(a["ens"], np)
+        obs = arr(a["obs"], np)
+        params = arr(a["params"], np)
+        u = arr(a["u"], np)
+        st = [("crps/first", lambda: metrics.crps(obs, ens)),
+              ("crps/fortran_order", lambda: metrics.crps(obs, np.asfortranarray(ens))),
+              ("crps/strided", lambda: metrics.crps(obs[::2], ens[::2])),
+              ("crps/column_subset", lambda: metrics.crps(obs, ens[:, ::2])),
+              ("crps/no_member", lambda: metrics.crps(obs, ens[:, :0])),
+              ("crps/empty", lambda: metrics.crps(obs[:0], ens[:0])),
+              ("dscore/first", lambda: metrics.dscore(obs, ens)),
+              ("dscore/transposed", lambda: metrics.dscore(obs, ens.T)),
+              ("dscore/strided", lambda: metrics.dscore(obs[::2], ens[::2])),
+              ("dscore/no_member", lambda: metrics.dscore(obs, ens[:, :0])),
+              ("pareto/first", lambda: sutils.pareto_front(ens)),
+              ("pareto/transposed", lambda: sutils.pareto_front(ens.T)),
+              ("pareto/strided", lambda: sutils.pareto_front(ens[::2, ::2])),
+              ("pareto/no_column", lambda: sutils.pareto_front(ens[:, :0])),
+              ("edit_ens_in_place", lambda: ens.__setitem__((slice(None, None, 2), 0), np.nan)),
+              ("crps/after_edit", lambda: metrics.crps(obs, ens)),
+              ("pareto/after_edit", lambda: sutils.pareto_front(ens, -1)),
+              ("armodel_sim/first", lambda: armodels.armodel_sim(params, obs)),
+              ("armodel_sim/reversed_params", lambda: armodels.armodel_sim(params[::-1], obs[::2])),
+              ("armodel_sim/order_grows", lambda: armodels.armodel_sim(np.resize(params, 10), obs)),
+              ("armodel_sim/order_11", lambda: armodels.armodel_sim(np.resize(params, 11), obs)),
+              ("armodel_sim/no_param", lambda: armodels.armodel_sim(params[:0], obs)),
+              ("armodel_residual/first", lambda: armodels.armodel_residual(params, obs)),
+              ("armodel_residual/strided", lambda: armodels.armodel_residual(params[::2], obs[::3], 0.0)),
+              ("armodel_residual/empty", lambda: armodels.armodel_residual(params, obs[:0], 0.0)),
+              ("armodel_residual/order_10", lambda: armodels.armodel_residual(np.resize(params, 10), obs, 0.0)),
+              ("ad/first", lambda: metrics.anderson_darling_test(u)),
+              ("ad/strided", lambda: metrics.anderson_darling_test(u[::2])),
+              ("ad/empty", lambda: metrics.anderson_darling_test(u[:0])),
+              ("ad/edit", lambda: u.__setitem__(0, 2.0)),
+              ("ad/after_edit", lambda: metrics.anderson_darling_test(u)),
+              ("crps/again", lambda: metrics.crps(obs, ens))]
+        return run_steps(st)
+
+    @entry("h.dates")
+    def _(a):
+        d = arr(a["date"], np)
+        d2 = arr(a["date2"], np)
+        st = []
+        for i in range(a.get("ndays", 35)):
+            st.append((f"add1day", lambda: cd.add1day(d)))
+        for i in range(a.get("nmonths", 14)):
+            st.append((f"add1month", lambda: cd.add1month(d)))
+        st += [("comparedates/aliased", lambda: cd.comparedates(d, d)),
+               ("comparedates/other", lambda: cd.comparedates(d, d2)),
+               ("comparedates/reversed_view", lambda: cd.comparedates(d, d2[::-1])),
+               ("comparedates/int64", lambda: cd.comparedates(d.astype(np.int64), d2)),
+               ("add1day/short_view", lambda: cd.add1day(d[:2])),
+               ("add1day/empty_view", lambda: cd.add1day(d[:0])),
+               ("add1month/strided", lambda: cd.add1month(np.zeros(6, dtype=np.int32)[::2]))]
+        for day in a.get("days", []):
+            st.append(("getdate/same_buffer", lambda day=day: cd.getdate(fl(day), d)))
+            st.append(("add1day/after_getdate", lambda: cd.add1day(d)))
+        return run_steps(st)
+
+    @entry("h.grid")
+    def _(a):
+        g = mkgrid(a["g"])
+        xy = arr(a["xy"], np)
+        cells = [None]
+        st = [("coord2cell/first", lambda: cells.__setitem__(0, g.coord2cell(xy))),
+              ("coord2cell/strided_rows", lambda: g.coord2cell(xy[::2])),
+              ("coord2cell/swapped_columns_view", lambda: g.coord2cell(xy[:, ::-1])),
+              ("coord2cell/empty_view", lambda: g.coord2cell(xy[:0])),
+              ("coord2cell/transposed", lambda: g.coord2cell(xy.T)),
+              ("coord2cell/one_column_view", lambda: g.coord2cell(xy[:, :1])),
+              ("coord2cell/float32", lambda: g.coord2cell(xy.astype(np.float32))),
+              ("slice/first", lambda: g.slice(xy)),
+              ("slice/strided", lambda: g.slice(xy[::2])),
+              ("slice/empty_view", lambda: g.slice(xy[:0])),
+              ("edit_xy_in_place", lambda: xy.__setitem__((slice(None, None, 2), 0), np.nan)),
+              ("coord2cell/after_edit", lambda: g.coord2cell(xy)),
+              ("slice/after_edit", lambda: g.slice(xy)),
+              ("cell2coord/first", lambda: g.cell2coord(cells[0])),
+              ("cell2rowcol/strided", lambda: g.cell2rowcol(cells[0][::2])),
+              ("edit_cells_in_place", lambda: cells[0].__setitem__(slice(None, None, 2), a.get("badcell", 10 ** 9))),
+              ("cell2coord/after_edit", lambda: g.cell2coord(cells[0])),
+              ("cell2rowcol/after_edit", lambda: g.cell2rowcol(cells[0])),
+              ("neighbours/edited_cell", lambda: g.neighbours(cells[0][0] if len(cells[0]) else 0)),
+              ("dtype_reassigned", lambda: setattr(g, "dtype", np.int32)),
+              ("slice/after_dtype", lambda: g.slice(xy)),
+              ("data_edit_in_place", lambda: g.data.__setitem__((0, 0), 7)),
+              ("slice/after_data_edit", lambda: g.slice(xy)),
+              ("ncols_reassigned", lambda: setattr(g, "ncols", np.int64(a.get("ncols2", 1)))),
+              ("coord2cell/after_ncols", lambda: cells.__setitem__(0, g.coord2cell(xy))),
+              ("cell2coord/after_ncols", lambda: g.cell2coord(cells[0])),
+              ("cell2rowcol/after_ncols", lambda: g.cell2rowcol(np.arange(-2, 12))),
+              ("neighbours/after_ncols", lambda: g.neighbours(1)),
+              ("slice/after_ncols", lambda: g.slice(xy)),
+              ("cellsize_reassigned", lambda: setattr(g, "cellsize", np.float64(fl(a.get("csz2", 0.0))))),
+              ("coord2cell/after_cellsize", lambda: g.coord2cell(xy)),
+              ("slice/after_cellsize", lambda: g.slice(xy)),
+              ("clone", lambda: g.clone().slice(xy))]
+        return run_steps(st)
+
+    @entry("h.catchment")
+    def _(a):
+        fd = mkgrid(a["fd"], "int64")
+        c = hgrid.Catchment("c", fd)
+        g2 = mkgrid(a["g"])
+        pts = arr(a["xy"], np)
+        o1, o2 = a["outlet1"], a["outlet2"]
+        NV = 2000       # (the default buffer of 10^6 cells is three 8 MB allocations per call)
+        box = {"c": c}
+
+        def allops(tag, cc=None):
+            cc = (lambda: box["c"]) if cc is None else cc
+            return [(tag + "/boundary", lambda: cc().delineate_boundary()),
+                    (tag + "/flowpaths", lambda: cc().compute_flowpathlengths()),
+                    (tag + "/intersect", lambda: cc().intersect(g2)),
+                    (tag + "/intersect_filled", lambda: cc().intersect(g2, True)),
+                    (tag + "/voronoi", lambda: hgrid.voronoi(cc(), pts)),
+                    (tag + "/voronoi_fewer_points", lambda: hgrid.voronoi(cc(), pts[:1])),
+                    (tag + "/upstream", lambda: cc().upstream(cc().idxcells_area)),
+                    (tag + "/downstream", lambda: cc().downstream(cc().idxcells_area[::2]))]
+        st = [("area/buffer_too_small", lambda: c.delineate_area(o1, nval=2)),
+              ("area/buffer_one", lambda: c.delineate_area(o1, nval=1))]
+        st += allops("after_failed_area")
+        st += [("area/first", lambda: c.delineate_area(o1, nval=NV))] + allops("first")
+        st += [("area/other_outlet", lambda: c.delineate_area(o2, a.get("inlets"), NV))] + allops("other_outlet")
+        st += [("edit_area_in_place", lambda: c.idxcells_area.__setitem__(slice(0, None, 2), a.get("badcell", -3)))]
+        st += allops("edited_area")
+        st += [("edit_filled_in_place", lambda: c.idxcells_area_filled.__setitem__(0, a.get("badcell", -3)))]
+        st += allops("edited_filled")
+        st += [("area/again", lambda: c.delineate_area(o1, nval=NV)),
+               ("flowdir_edit_in_place", lambda: c.flowdir.data.__setitem__((slice(None), 0), a.get("badcode", 999)))]
+        st += [("area/after_flowdir_edit", lambda: c.delineate_area(o1, nval=NV))] + allops("after_flowdir_edit")
+        st += [("clone", lambda: box.__setitem__("c", c.clone()))] + allops("clone")
+        st += [("pickle", lambda: box.__setitem__("c", pickle.loads(pickle.dumps(c))))] + allops("pickle")
+
+        def dict_round_trip():
+            cc = hgrid.Catchment.from_dict(c.to_dict())
+            cc.flowdir.data = c.flowdir.data
+            box["c"] = cc
+        st += [("dict_round_trip", dict_round_trip)] + allops("dict")
+        st += [("flowdir_ncols_reassigned", lambda: setattr(c.flowdir, "ncols", np.int64(a.get("ncols2", 1)))),
+               ("box_back", lambda: box.__setitem__("c", c))] + allops("after_ncols")
+        for k in a.get("nvals", [0, 1, 2, 3, 50]):
+            st.append((f"river/nval", lambda k=k: hgrid.delineate_river(fd, o1, k)))
+            st.append((f"area/nval", lambda k=k: c.delineate_area(o2, nval=k)))
+        return run_steps(st)
+
+    @entry("h.fields")
+    def _(a):
+        fd = mkgrid(a["fd"], "int64")
+        field = mkgrid(a["field"], "float64")
+        alt = mkgrid(a["alt"], "float64")
+        st = [("accumulate/default", lambda: hgrid.accumulate(fd, nprint=a.get("nprint", 0))),
+              ("accumulate/field", lambda: hgrid.accumulate(fd, field, nprint=1)),
+              ("field_edit_in_place", lambda: field.data.__setitem__((slice(None), slice(None, None, 2)), np.nan)),
+              ("accumulate/after_edit", lambda: hgrid.accumulate(fd, field, nprint=a.get("nprint", 0), max_accumulated_cells=2)),
+              ("slope/first", lambda: hgrid.slope(fd, alt, nprint=a.get("nprint", 0))),
+              ("alt_edit_in_place", lambda: alt.data.__setitem__((0, slice(None)), np.inf)),
+              ("slope/after_edit", lambda: hgrid.slope(fd, alt, nprint=-1)),
+              ("flowdir_edit_in_place", lambda: fd.data.__setitem__((slice(None), -1), a.get("badcode", 5))),
+              ("accumulate/after_flowdir_edit", lambda: hgrid.accumulate(fd, field, nprint=1)),
+              ("slope/after_flowdir_edit", lambda: hgrid.slope(fd, alt, nprint=1)),
+              ("flowdir_dtype_float", lambda: setattr(fd, "dtype", np.float64)),
+              ("accumulate/after_dtype", lambda: hgrid.accumulate(fd, field, nprint=1)),
+              ("slope/other_shape", lambda: hgrid.slope(fd, mkgrid(a["alt2"], "float64"), nprint=1)),
+              ("accumulate/other_shape", lambda: hgrid.accumulate(fd, mkgrid(a["alt2"], "float64"), nprint=1)),
+              ("flowdir_nrows_reassigned", lambda: setattr(fd, "nrows", np.int64(a.get("nrows2", 1)))),
+              ("accumulate/after_nrows", lambda: hgrid.accumulate(fd, nprint=1)),
+              ("slope/after_nrows", lambda: hgrid.slope(fd, alt, nprint=1))]
+        return run_steps(st)
+
+    @entry("h.polygon")
+    def _(a):
+        pts = arr(a["points"], np)
+        poly = arr(a["polygon"], np)
+        n = len(pts)
+        inside = np.zeros(n, dtype=np.int32)
+        pip = gutils.points_inside_polygon
+        k = max(n - 2, 0)
+        st = [("first", lambda: pip(pts, poly, inside)),
+              ("same_buffer_again", lambda: pip(pts, poly, inside, nprint=1)),
+              ("fewer_points_same_buffer", lambda: pip(pts[:k], poly, inside)),
+              ("fewer_points_prefix_view", lambda: pip(pts[:k], poly, inside[:k])),
+              ("strided_points_strided_buffer", lambda: pip(pts[::2], poly, inside[::2])),
+              ("strided_points_fresh", lambda: pip(pts[::2], poly)),
+              ("buffer_int64", lambda: pip(pts, poly, inside.astype(np.int64))),
+              ("buffer_longer", lambda: pip(pts, poly, np.zeros(n + 3, dtype=np.int32))),
+              ("empty_points", lambda: pip(pts[:0], poly, inside[:0])),
+              ("polygon_reversed_view", lambda: pip(pts, poly[::-1], inside)),
+              ("polygon_swapped_columns", lambda: pip(pts, poly[:, ::-1], inside)),
+              ("polygon_one_vertex", lambda: pip(pts, poly[:1], inside)),
+              ("polygon_empty", lambda: pip(pts, poly[:0], inside)),
+              ("polygon_transposed", lambda: pip(pts, poly.T, inside)),
+              ("edit_polygon_in_place", lambda: poly.__setitem__((0, 0), np.nan)),
+              ("after_polygon_edit", lambda: pip(pts, poly, inside)),
+              ("edit_points_in_place", lambda: pts.__setitem__((slice(None, None, 2), 1), np.inf)),
+              ("after_points_edit", lambda: pip(pts, poly, inside)),
+              ("cells_inside_polygon", lambda: mkgrid(a["g"]).cells_inside_polygon(poly))]
+        return run_steps(st)
+
     return E, loaded, (cd, cs, cg)
 
 
@@ -312,7 +576,12 @@ def install_shims(mods, record):
                         record({"mod": modname, "fn": name, "args": [enc(a) for a in args]})
                     except Exception as e:      # noqa: recording must never change the behaviour
                         record({"mod": modname, "fn": name, "args": None, "err": repr(e)[:80]})
-                    return f(*args)
+                    res = f(*args)
+                    try:
+                        record({"ret": int(res)})
+                    except Exception:       # noqa
+                        pass
+                    return res
                 return shim
             setattr(mod, name, make())
 
@@ -504,10 +773,11 @@ def main():
         st.write(line + "\n")
         st.flush()          # into the OS: survives the death of this process
 
+    cur = [start]
     say(f"P {os.getpid()}")
+    MARK[0] = lambda label: say(f"S {cur[0]} {label}")
     entries, loaded, kern = None, {}, None
     childlog = ""
-    cur = [start]
     pos = 0
     for i in range(start, len(probes)):
         p = probes[i]
